@@ -175,7 +175,7 @@ pub fn cfg() -> GenCfg {
 
 pub fn templates() -> Vec<G> {
     let j = |s: &str| G::Just(s.into());
-    let rep = |item: G, lo: u8, hi: Option<u8>, sink: Sink| G::Rep(Rep { item: b(item), sep: None, leading: false, trailing: false, lo, hi, sink, cfg: false });
+    let rep = |item: G, lo: u8, hi: Option<u8>, sink: Sink| G::Rep(Rep { item: b(item), sep: None, leading: false, trailing: false, lo, hi, sink, cfg: false, ctxb: 0 });
     let fb = |t: u32| G::To(b(G::Any), 900 + t);
     let strategies = |t: u32| -> Vec<Strat> {
         vec![
@@ -223,7 +223,7 @@ pub fn nested_templates() -> Vec<G> {
         let rec = G::Recover(b(p), s);
         out.push(rec.clone());
         out.push(G::Then(b(rec.clone()), b(any_rest())));
-        out.push(G::Then(b(G::Rep(Rep { item: b(rec.clone()), sep: None, leading: false, trailing: false, lo: 0, hi: None, sink: Sink::Vec, cfg: false })), b(any_rest())));
+        out.push(G::Then(b(G::Rep(Rep { item: b(rec.clone()), sep: None, leading: false, trailing: false, lo: 0, hi: None, sink: Sink::Vec, cfg: false, ctxb: 0 })), b(any_rest())));
     }
     out.retain(wf);
     out
